@@ -115,6 +115,14 @@ func genInput(seed uint64) snapInput {
 	} else {
 		in.TMS = embedded[r.Intn(len(embedded))]
 		maxID = 2 + r.Intn(9)
+		if r.Chance(0.35) {
+			// deep tile matrices of a real-world grid: pixels of centimetres at coordinates
+			// of millions, where naive orientation / area arithmetic drowns in rounding noise
+			maxID = 14 + r.Intn(9)
+		}
+		if top := len(loadTMS(in.TMS).TileMatrices) - 1; maxID > top {
+			maxID = top
+		}
 	}
 	// id list: 2..5 ids (10 %: a single id), any order
 	n := 2 + r.Intn(4)
@@ -726,6 +734,21 @@ func evaluate(in *snapInput, seed uint64, nOrders int, fixed *orderSpec) (*simh.
 		}
 	}
 	simrt.SetMapOrder(simrt.MapSorted, 0)
+	// oracle 5 (every repetition, whatever ran before): an unrelated call with other
+	// settings in between must not change the answer (state kept across calls)
+	{
+		other := genInput(seed ^ 0x5bd1e995)
+		other.Keep = !in.Keep
+		_ = call(&other, other.IDs, other.Rings, other.Reverse)
+		r5 := call(in, in.IDs, in.Rings, in.Reverse)
+		st.calls += 2
+		st.probes.Inc("oracle5-repetition-after-unrelated-call")
+		if canon(r5) != c0 {
+			simrt.SetMapOrder(simrt.MapNative, 0)
+			return &simh.Violation{Class: "determinism/history", Message: fmt.Sprintf(
+				"the same call returns different geometry after an unrelated call (tms %s ids %v) was made in between: first %s ; then %s", other.TMS, other.IDs, describe(r0), describe(r5))}, nil, "history", st
+		}
+	}
 	if in.Valid && !r0.panicked {
 		// oracle 3: rings handed over in the opposite direction
 		r3 := call(in, in.IDs, withReversedRings(in), in.Reverse)
